@@ -182,6 +182,38 @@ def run(ck: Check):
                                          f"are clamped: expected {ep!r} {enc_bools(er)} len {k - (hi - lo)}",
                                          {"op": "rmslice", "class": cls.__name__, "reducible": red, "a": str(a), "b": str(b)})
                         # (direct oracle only: the driver of the extracted model reads machine-size integers; the theorem is over Z)
+    # SEQUENCES of deletions on one lineage (copy, rmslice, copy, rmslice ... - what a reduction does): each one is judged
+    # against the specification applied to what the previous one left
+    r3 = rng("c07-sequences")
+    for _ in range(3000 if ck.tier == "quick" else 30000):
+        n = r3.randint(2, 9)
+        red = [r3.random() < 0.6 for _ in range(n)]
+        parts = [bytes([65 + i]) for i in range(n)]
+        t = mk(parts, red)
+        cur_p, cur_r, hist = list(parts), list(red), []
+        for step_ in range(r3.randint(2, 4)):
+            k = sum(cur_r)
+            a, b = r3.randint(-k - 1, k + 1), r3.randint(-k - 1, k + 1)
+            lo, hi = clampi(k, a), clampi(k, b)
+            if lo > hi:
+                continue
+            if r3.random() < 0.5:
+                t = t.copy()
+            hist.append((a, b))
+            try:
+                t.rmslice(a, b)
+                got = (t.parts, t.reducible, len(t))
+            except Exception as e:  # pylint: disable=broad-except
+                got = type(e).__name__
+            cur_p, cur_r = spec_rm(cur_p, cur_r, lo, hi)
+            ck.count("sequence")
+            if got != (cur_p, cur_r, sum(cur_r)):
+                ck.nontrivial(("sequence", tuple(red), tuple(hist)))
+                ck.violation(f"rmslice sequence {hist} on flags {enc_bools(red)} (copy() in between at random): after the last one the "
+                             f"testcase is {got!r}, the specification gives {cur_p!r} {enc_bools(cur_r)} len {sum(cur_r)}",
+                             {"op": "rmslice-sequence", "reducible": red, "sequence": hist})
+                break
+        ck.nontrivial(("sequence", tuple(red), tuple(hist)))
     # len() queried, then the lists edited IN PLACE (append / flag flip / pop), then rmslice: no stale state
     r2 = rng("c07-inplace")
     for _ in range(300 if ck.tier == "quick" else 3000):
